@@ -212,6 +212,27 @@ def gen_multi(rng, k):
     return c
 
 
+def gen_linsys_hist(rng):
+    vs, size = rng.choice([1, 2, 2, 3]), rng.choice([1, 2, 3])
+    vecA = bool(vs > 1 and rng.random() < 0.5)
+    nA = vs if vecA else 1
+    c = {'comp': 'linsys_hist', 'vs': vs, 'size': size, 'vecA': vecA, 'steps': []}
+
+    def mat():
+        # strictly diagonally dominant: nonsingular and well conditioned
+        M = [[Fraction(rng.randrange(-4, 5), rng.choice([1, 2])) for _ in range(size)] for _ in range(size)]
+        for i in range(size):
+            M[i][i] = (sum(abs(v) for k, v in enumerate(M[i]) if k != i) + rng.choice([1, 2, 3])) * rng.choice([-1, 1])
+        return M
+    for k in range(rng.choice([2, 2, 3])):
+        prev = c['steps'][-1] if c['steps'] else None
+        keepA = prev is not None and rng.random() < 0.2       # sometimes only b changes
+        A = prev['A'] if keepA else [[[jq(v) for v in row] for row in mat()] for _ in range(nA)]
+        b = [[jq(dy(rng)) for _ in range(size)] for _ in range(vs)]
+        c['steps'].append({'A': A, 'b': b})
+    return c
+
+
 class C26(Spec):
     pid = 'C26'
     imports = ['Expr.Expr', 'C26.Model']
@@ -230,15 +251,27 @@ class C26(Spec):
         n = 30 if tier == 'quick' else 600
         cases = []
         for k in ('addsub', 'mux', 'dotp', 'cross', 'matvec', 'vmag', 'eqc', 'balance', 'linsys'):
-            cases += [gen_case(rng, k) for _ in range(n)]
+            for _ in range(n):
+                c = gen_case(rng, k)
+                if rng.random() < 0.3:
+                    # history: the same Problem is first evaluated and linearized at other inputs
+                    c['x_prev'] = gen_case(rng, k)['x'] if k == 'vmag' else [jq(dy(rng)) for _ in c['x']]
+                    if len(c['x_prev']) != len(c['x']):
+                        del c['x_prev']
+                cases.append(c)
         # option sets outside the generic layout
         for _ in range(10 if tier == 'quick' else 60):
             cases.append({'comp': 'balance_rhs_kwargs', 'rhs': jq(dy(rng)), 'lhs': jq(dy(rng))})
             cases.append({'comp': 'self_product', 'which': 'dot', 'x': [jq(dy(rng)) for _ in range(rng.choice([1, 2, 3]))]})
             cases.append({'comp': 'self_product', 'which': 'cross', 'x': [jq(dy(rng)) for _ in range(3)]})
         cases += [gen_spline(rng) for _ in range(40 if tier == 'quick' else 500)]
+        cases += [gen_linsys_hist(rng) for _ in range(30 if tier == 'quick' else 400)]
         for k in ('eqmulti', 'balmulti'):
-            cases += [gen_multi(rng, k) for _ in range(40 if tier == 'quick' else 400)]
+            for _ in range(30 if tier == 'quick' else 400):
+                c = gen_multi(rng, k)
+                if rng.random() < 0.3:
+                    c['x_prev'] = [jq(dy(rng)) for _ in c['x']]
+                cases.append(c)
         return cases
 
     def search_gen(self, tier, rng):
